@@ -416,6 +416,17 @@ impl Check for C01 {
         }
         rep
     }
+    fn describe(&mut self, ctx: &WorkerCtx, i: u64) -> J {
+        self.prepare(&ctx.repo, ctx.verif_seed, ctx.tier);
+        let case = if i < self.enum_total { self.enum_case(i) } else { self.random_case(ctx, i - self.enum_total) };
+        let mut j = case.to_json("C01");
+        if let Some(d) = j.get_mut("doc") {
+            if d.get("bytes").is_some() {
+                d["bytes"] = json!("...");
+            }
+        }
+        j
+    }
     fn replay(&mut self, ctx: &WorkerCtx, case: &J) -> Vec<Violation> {
         let c = match Case::from_json(case, &ctx.repo) {
             Some(c) => c,
